@@ -3,6 +3,7 @@ import base64
 import binascii
 import math
 import re
+import sys
 from collections.abc import Callable, Sequence
 from contextlib import suppress
 from datetime import date, datetime, time
@@ -155,7 +156,11 @@ class ConverterFactory:
             ):
                 return True
 
-            encoded = self.serialize(decoded, **kwargs)
+            try:
+                encoded = self.serialize(decoded, **kwargs)
+            except ConverterError:
+                return False
+
             return value.strip() == encoded
 
         return True
@@ -493,6 +498,11 @@ class DecimalConverter(Converter):
         """
         if value.is_infinite():
             return str(value).replace("Infinity", "INF")
+
+        # The lexical form has no exponent, every digit is written out
+        limit = getattr(sys, "get_int_max_str_digits", lambda: 4300)()
+        if limit and abs(value.adjusted()) > limit:
+            raise ConverterError(f"Decimal exponent out of range `{value}`")
 
         return f"{value:f}"
 
